@@ -1,6 +1,7 @@
 package props
 
 import (
+	"sort"
 	"strings"
 
 	"verif/checker/internal/an"
@@ -20,6 +21,7 @@ func c16(c *Ctx) {
 		"and nothing on the reconnect path outside makeAuthKey writes the auth key, its hash or the encrypted flag."
 	r.NotDecided = []string{"that the loop never blocks (sends on Warnings / waiter channels) — liveness", "that requests issued afterwards complete",
 		"index/slice/reflect sites of the decode path: decided under C15, of the error path: C17"}
+	c.errorsKept("R16.E", "the receive path (readMsg, processResponse, writeRPCResponse)", 5, rootMethods("readMsg", "processResponse", "writeRPCResponse", "startReadingResponses"))
 	r.Rule("R16.P", "every explicit panic / panicking helper / unchecked assertion reachable from the receive goroutine is discharged, accepted with a reason, or a listed finding", 20)
 	r.Rule("R16.I", "every message the transport delivers is handed on and dispatched (as C09 R09.I): requests issued after any server message still complete only if later messages are not filtered away in front of the dispatch", 2)
 	c.everyMessageDispatched("R16.I")
@@ -75,6 +77,8 @@ func c16(c *Ctx) {
 	// ---- R16.W: the loop must not wait for itself ------------------------------------------------
 	r.Rule("R16.O", "a solicited answer finds its waiter: the request's waiter is registered before the request is written (an rpc_result dispatched in between returns 'not found', which the loop's default arm turns into a panic — the listed finding — so the window must not exist)", 2)
 	c.registerBeforeWrite("R16.O")
+	r.Rule("R16.M", "every mutex the repository's own code locks is given back on every path to a return (deferred Unlock, or an explicit one before the exit) and is not locked again while held: a handler that leaves the switch early with the lock held stops the loop at the next message of that kind", 10)
+	c.locksReleased("R16.M", c.repoFunctionsWithLocks())
 	r.Rule("R16.X", "no waiter channel is closed by the table or the receive path (a send on a closed channel panics in the receive goroutine)", 1)
 	c.noWaiterClose("R16.X")
 	r.Rule("R16.B", "the receive goroutine never blocks on a channel nobody reads: every send it performs goes to the channel registered under the id the server echoed for one request", 2)
@@ -315,4 +319,42 @@ func modeIsIntermediate(c *Ctx) bool {
 		}
 	}
 	return n > 0
+}
+
+// locksReleased: one obligation per Lock / RLock call of the given functions - the mutex is given back on every
+// path to a return (deferred Unlock, or an explicit one before the exit) and is not locked again while held.
+func (c *Ctx) locksReleased(rule string, fns []*ssa.Function) {
+	r := c.R
+	n := 0
+	sort.Slice(fns, func(i, j int) bool { return fns[i].String() < fns[j].String() })
+	for _, f := range fns {
+		k := 0
+		for _, s := range an.LockSites(f) {
+			k++
+			n++
+			var bad []string
+			for _, l := range s.Leaks {
+				bad = append(bad, "the return at "+c.pos(l.Pos())+" is reached with the lock still held")
+			}
+			for _, l := range s.Relocks {
+				bad = append(bad, "locked again at "+c.pos(l.Pos())+" while held")
+			}
+			r.Check(len(bad) == 0, rule, sprintf("lock-released:%s#%d", an.ShortName(f), k), c.pos(s.Lock.Pos()), simplifyOrigin(s.Mutex)+": "+strings.Join(bad, "; "))
+		}
+	}
+	if n == 0 {
+		r.Undecide(rule, "lock-released", "", "no mutex acquisition found in the region")
+	}
+}
+
+// repoFunctionsWithLocks: every function (and closure) of the root package, utils, transport, mode and session.
+func (c *Ctx) repoFunctionsWithLocks() []*ssa.Function {
+	var fns []*ssa.Function
+	for f := range c.P.AllFunctions() {
+		if !c.inRepo(f) || len(f.Blocks) == 0 || f.Synthetic != "" {
+			continue
+		}
+		fns = append(fns, f)
+	}
+	return fns
 }
